@@ -15,9 +15,9 @@ out = ["### 8.4 Seeded changes (written by independent sub-agents; `seeded/<id>/
        "Each sub-agent received only the text of one property and its own scratch worktree of /repo (nothing from /verif), and",
        "returned a change that still passes the 55 repository tests plus a demonstration script.  Every change was confirmed",
        "with `tools/seedcheck.sh` (demo PASS on the unmodified tree, tests pass with the change, demo FAIL with the change) and",
-       "then the property's quick check was run against the changed worktree (`VERIF_REPO=<worktree>`).  Fifteen rounds (a: free",
+       "then the property's quick check was run against the changed worktree (`VERIF_REPO=<worktree>`).  Seventeen rounds (a: free",
        "choice, b: a named focus area per property, c: \"not the obvious place\", d: disguised as a performance / clean-up",
-       "commit, e: needs an exact coincidence a random generator would not produce, f: in a rarely executed branch or environment-dependent path, g: an interaction of two options, sections, calls or argument types, h: a well-meant normalisation or leniency, i: at a limit or in a numeric / positional detail, j: the fallback / negative clause of the property, k: a shared helper or table changed for the worse of one caller, l: order and completeness of effects, m: a small feature or compatibility shim added next to the property's code, n: a Python semantics subtlety, o: indirectly, from a helper / data file / argument definition that a reviewer of the property would not look at), %d changes: %d were reported by the check as it" % (len(rows), len(rows) - len(missed)),
+       "commit, e: needs an exact coincidence a random generator would not produce, f: in a rarely executed branch or environment-dependent path, g: an interaction of two options, sections, calls or argument types, h: a well-meant normalisation or leniency, i: at a limit or in a numeric / positional detail, j: the fallback / negative clause of the property, k: a shared helper or table changed for the worse of one caller, l: order and completeness of effects, m: a small feature or compatibility shim added next to the property's code, n: a Python semantics subtlety, o: indirectly, from a helper / data file / argument definition that a reviewer of the property would not look at, p: two cooperating edits in different functions or files that are each behaviour-preserving alone, q: visible only after a multi-step sequence, under an operating-system fault at a particular point, or exactly where two pieces of code hand over), %d changes: %d were reported by the check as it" % (len(rows), len(rows) - len(missed)),
        "stood at the time, %d were missed and led to the strengthening noted per seed in `meta.json` (`history`); after that all" % len(missed),
        "%d but three (C10-k, C18-n, C20-n: not pursued, their triggers lie outside the input domain - reasons in their `meta.json`) are" % len(rows),
        "reported by the quick tier at workload seeds 0 and 5 (`tools/reseed.sh` re-applies every patch to a fresh worktree and re-checks).",
